@@ -1,8 +1,7 @@
 (* Loading one end of a many-valued unique reference (Model/RefLoad.v):
    no element twice, and the order of the end's own list. *)
 From Coq Require Import ZArith List Bool Lia.
-From PyecoreV Require Import Lib.PyBase Lib.PyList Model.OSet Model.RefLoad
-     Proofs.PyListFacts Proofs.OSetProofs.
+From PyecoreV Require Import Lib.PyBase Lib.PyList Model.OSet Model.RefLoad Proofs.PyListFacts Proofs.OSetProofs.
 Import ListNotations.
 Open Scope Z_scope.
 
